@@ -395,3 +395,4 @@ def run(rep):
     rep.floor("NESTED-MODEL", 3)
     rep.exhaustive = True
     rep.assumptions.append("Object::get implementations look the key up unchanged (checked for the crate's own impls in C11)")
+    rep.assumptions.append("the find evaluation covers 105 probe keys over one model document: agreement with the path language is established on these probes only; the structural step-table rules decide the shapes they recognise")
